@@ -10,7 +10,7 @@ import (
 	"errors"
 	"fmt"
 	"os"
-	"runtime/debug"
+	"runtime/pprof"
 	"sort"
 	"strings"
 	"sync"
@@ -59,8 +59,8 @@ type refPart struct {
 	recs  []*kgo.Record
 }
 type ref struct {
-	parts  []refPart
-	recs   []*kgo.Record
+	parts []refPart
+	recs  []*kgo.Record
 	order []string   // topic names in first-seen order
 	ids   [][16]byte // expected merged topic id, parallel to order
 }
@@ -482,9 +482,13 @@ func main() {
 		replay(os.Args[2])
 		return
 	}
-	debug.SetGCPercent(2000)
+	if pp := os.Getenv("VERIF_PPROF"); pp != "" {
+		f, _ := os.Create(pp)
+		pprof.StartCPUProfile(f)
+		defer pprof.StopCPUProfile()
+	}
 	r := ev.New("C38", "exploration")
-	r.Rule("every kgo.Fetches built from <=2 (thorough: one reduced stage with 3) fetches x <=2 topics per fetch (names from {A,B}, distinct within a fetch, both orders, so names repeat across fetches) x <=2 partitions x {0,1,2 records} x {partition error, none}, plus the empty Fetches, nil Fetches, fetches without topics, topics without partitions, topic-ID variants (all occurrences carry the ID / only the first fetch / only the second) and an injected kgo.NewErrFetch before or after; a case is one complete shape, counted distinct by its outcome signature (#records,#partitions,#topics,#errors,#fetches)")
+	r.Rule("every kgo.Fetches built from <=2 (thorough: one reduced stage with 3) fetches x <=2 topics per fetch (names from {A,B}, distinct within a fetch, both orders, so names repeat across fetches) x <=2 partitions x {0,1,2 records} x {partition error, none} (full domain for every single fetch and, in thorough, every pair of fetches; quick pairs use the 5-state domain without (2 records,error), variant stages the reduced domains listed in partition_states), plus the empty Fetches, nil Fetches, fetches without topics, topics without partitions, topic-ID variants (all occurrences carry the ID / only the first fetch / only the second) and an injected kgo.NewErrFetch before or after; a case is one complete shape, counted distinct by its outcome signature (#records,#partitions,#topics,#errors,#fetches)")
 	r.Assume("accessors are read-only (shapes are rebuilt for every case, so a mutation could not leak between cases)",
 		"within one Fetch a topic name appears at most once (broker responses list a topic once); a topic's partitions are numbered distinctly across fetches (one leader per partition)",
 		"record order across the four record accessors must agree with each other; against the shape only exactly-once coverage is required, not a specific order")
@@ -492,6 +496,7 @@ func main() {
 	full := []PShape{{0, false}, {1, false}, {2, false}, {0, true}, {1, true}, {2, true}}
 	red4 := []PShape{{0, false}, {1, false}, {0, true}, {2, true}}
 	red3 := []PShape{{0, false}, {1, false}, {1, true}}
+	red5 := []PShape{{0, false}, {1, false}, {2, false}, {0, true}, {1, true}}
 	names := []string{"A", "B"}
 	errF := []FShape{{ErrFetch: true}}
 
@@ -499,7 +504,8 @@ func main() {
 	F := fetchShapes(names, false, full, 2)
 	Fz := fetchShapes(names, true, full, 2)
 	R := fetchShapes(names, false, red4, 2)
-	Rz := fetchShapes(names, true, red4, 2)
+	T3 := fetchShapes(names, false, red3, 2)
+	T3z := fetchShapes(names, true, red3, 2)
 	stages = append(stages,
 		stage{"one-fetch/full", [][]FShape{F}},
 		stage{"one-fetch/full/zero-id", [][]FShape{Fz}},
@@ -507,29 +513,29 @@ func main() {
 		stage{"two-errfetches", [][]FShape{errF, errF}},
 		stage{"errfetch+one-fetch/full", [][]FShape{errF, F}},
 		stage{"one-fetch/full+errfetch", [][]FShape{F, errF}},
-		stage{"two-fetches/full/ids-set", [][]FShape{F, F}},
 	)
 	if ev.Thorough() {
-		T3 := fetchShapes(names, false, red3, 2)
-		T3z := fetchShapes(names, true, red3, 2)
 		stages = append(stages,
+			stage{"two-fetches/full/ids-set", [][]FShape{F, F}},
 			stage{"two-fetches/full/id-zero-in-first", [][]FShape{Fz, F}},
 			stage{"two-fetches/full/id-zero-in-second", [][]FShape{F, Fz}},
 			stage{"two-fetches/full/id-zero-in-both", [][]FShape{Fz, Fz}},
 			stage{"errfetch+two-fetches/full", [][]FShape{errF, F, F}},
 			stage{"two-fetches/full+errfetch", [][]FShape{F, F, errF}},
-			stage{"two-fetches/errfetch-between/reduced", [][]FShape{R, errF, R}},
+			stage{"two-fetches/errfetch-between/reduced4", [][]FShape{R, errF, R}},
 			stage{"three-fetches/reduced3", [][]FShape{T3, T3, T3}},
 			stage{"three-fetches/reduced3/id-only-in-last", [][]FShape{T3z, T3z, T3}},
 		)
 	} else {
+		Q := fetchShapes(names, false, red5, 2)
 		stages = append(stages,
-			stage{"two-fetches/reduced/id-zero-in-first", [][]FShape{Rz, R}},
-			stage{"two-fetches/reduced/id-zero-in-second", [][]FShape{R, Rz}},
-			stage{"two-fetches/reduced/id-zero-in-both", [][]FShape{Rz, Rz}},
-			stage{"errfetch+two-fetches/reduced", [][]FShape{errF, R, R}},
-			stage{"two-fetches/reduced+errfetch", [][]FShape{R, R, errF}},
-			stage{"two-fetches/errfetch-between/reduced", [][]FShape{R, errF, R}},
+			stage{"two-fetches/reduced5/ids-set", [][]FShape{Q, Q}},
+			stage{"two-fetches/reduced3/id-zero-in-first", [][]FShape{T3z, T3}},
+			stage{"two-fetches/reduced3/id-zero-in-second", [][]FShape{T3, T3z}},
+			stage{"two-fetches/reduced3/id-zero-in-both", [][]FShape{T3z, T3z}},
+			stage{"errfetch+two-fetches/reduced3", [][]FShape{errF, T3, T3}},
+			stage{"two-fetches/reduced3+errfetch", [][]FShape{T3, T3, errF}},
+			stage{"two-fetches/errfetch-between/reduced3", [][]FShape{T3, errF, T3}},
 		)
 	}
 
@@ -551,7 +557,8 @@ func main() {
 	}
 	r.Set("bound_completed", done)
 	r.Set("fetch_shapes_full", len(F))
-	r.Set("fetch_shapes_reduced", len(R))
+	r.Set("partition_states", map[string]any{"full": full, "reduced5": red5, "reduced4": red4, "reduced3": red3})
+	pprof.StopCPUProfile()
 	r.Finish()
 }
 
